@@ -18,6 +18,16 @@ CHECKS = {
         design="7/C12"),
 }
 
+CHECKS["C14"] = dict(
+    category="model_checking",
+    text="Split.tla gives the splitting rule twice (operational machine with the white-space / non-white-space delimiter rules, "
+         "and the declarative 'fields are the maximal runs of non-delimiter positions'); TLC checks them against each other on "
+         "every word up to the bound, enumerates every word up to MaxLen segments over 13 segment kinds and 8 IFS settings, and "
+         "validates every observation of the real ExecEnv.Expand (two constructions per word) by recomputing the expectation.",
+    note="Trusted: the reading of the statement in Split.tla, the driver's construction of ast.Word values from segment ids, TLC.",
+    technique="TLA+ reference model enumerated by TLC, observations of the real code validated by TLC",
+    design="7/C14")
+
 NOT_APPLICABLE = {}
 
 ALL = ["C%02d" % i for i in range(1, 21)]
